@@ -14,13 +14,33 @@ var methodPool = []string{"GET", "POST", "PUT", "DELETE"}
 var handlePool = []string{"/static/", "/health", "/a/plain", "/a/plain/", "/a/", "/ab/", "/b/", "/", "/c", "/static/x", "/a/b/", "/users/", "/a"}
 var valuePool = []string{"1", "v", "x42", "b", "plain"}
 
-// sim is the generator's view of the container: what is registered, which patterns the mux holds.
+// sim is the generator's view of the container: what is registered, which patterns the mux holds
+// for the WebServices (a pattern wanted by several services is registered once) and which for
+// plain handlers (Remove builds a new ServeMux without them).
 type sim struct {
-	pool     []SvcSpec
-	ct       *Content
-	added    []bool // the object went through Add at least once (a lazy root became "/")
-	patterns map[string]bool
-	onRoot   bool
+	pool      []SvcSpec
+	ct        *Content
+	added     []bool // the object went through Add at least once (a lazy root became "/")
+	svcPats   map[string]bool
+	plainPats map[string]bool
+	onRoot    bool
+}
+
+// addClash: Add of object i would panic in the ServeMux — one of the patterns it still has to
+// register is held by a plain handler. shares: one of its patterns is already registered for
+// another WebService (the situation of the repaired finding F11).
+func (s *sim) addClash(i int) (clash, shares bool) {
+	if s.onRoot {
+		return false, false
+	}
+	for _, p := range RegPatterns(s.root(i)) {
+		if s.svcPats[p] {
+			shares = true
+		} else if s.plainPats[p] {
+			clash = true
+		}
+	}
+	return clash, shares
 }
 
 func (s *sim) root(i int) string { return NormRoot(s.pool[i].Root) }
@@ -98,6 +118,7 @@ type Stats struct {
 	Lengths map[int]int
 	Risky   int // operations generated without steering away from a registration clash
 	Probes  int
+	Shared  int // Add operations generated for a service one of whose patterns another service holds (class of the repaired F11)
 }
 
 func NewStats() *Stats { return &Stats{Ops: map[string]int{}, Lengths: map[int]int{}} }
@@ -137,7 +158,7 @@ func GenHistory(r *rng.R, router string, st *Stats) *History {
 		}
 		h.Pool = append(h.Pool, s)
 	}
-	sm := &sim{pool: h.Pool, ct: newContent(h.Pool), added: make([]bool, nsvc), patterns: map[string]bool{}}
+	sm := &sim{pool: h.Pool, ct: newContent(h.Pool), added: make([]bool, nsvc), svcPats: map[string]bool{}, plainPats: map[string]bool{}}
 	nops := 1 + r.Intn(30)
 	hid := 100
 	// 3 of 5 histories stay outside the class of F10b: once a plain handler is registered, nothing is removed
@@ -150,35 +171,37 @@ func GenHistory(r *rng.R, router string, st *Stats) *History {
 		willPanic := false
 		switch k := r.Intn(100); {
 		case k < 36 || len(sm.ct.Services) == 0 && k < 70: // add
-			var cands []int
+			var cands, sharing []int
 			for i := range h.Pool {
 				if sm.registered(i) || sm.rootTaken(sm.root(i)) {
 					continue // a duplicate root path is os.Exit(1): never generated
 				}
-				clash := false
-				if !sm.onRoot {
-					for _, p := range RegPatterns(sm.root(i)) {
-						if sm.patterns[p] {
-							clash = true
-						}
-					}
-				}
+				clash, shares := sm.addClash(i)
 				if careful && clash {
-					continue
+					continue // a plain handler sits on a pattern the service needs: the ServeMux panics
 				}
 				cands = append(cands, i)
+				if shares {
+					sharing = append(sharing, i)
+				}
 			}
 			if len(cands) == 0 {
 				break
 			}
 			i := cands[r.Intn(len(cands))]
+			if len(sharing) > 0 && r.Chance(1, 3) {
+				// roots that share their fixed prefix with a registered service (former class of F11)
+				i = sharing[r.Intn(len(sharing))]
+			}
 			op, ok = Op{Kind: "add", Svc: i}, true
+			clash, shares := sm.addClash(i)
+			willPanic = clash
+			if shares {
+				st.Shared++
+			}
 			if !sm.onRoot {
 				for _, p := range RegPatterns(sm.root(i)) {
-					if sm.patterns[p] {
-						willPanic = true
-					}
-					sm.patterns[p] = true
+					sm.svcPats[p] = true
 				}
 				sm.onRoot = IsRootPattern(sm.root(i))
 			}
@@ -200,16 +223,13 @@ func GenHistory(r *rng.R, router string, st *Stats) *History {
 					rest = append(rest, sm.root(j))
 				}
 			}
-			if PrefixesCollide(rest) {
-				if careful {
-					break
-				}
-				willPanic = true
-			}
+			// Remove re-registers the remaining services on a new ServeMux: it cannot panic, and the
+			// plain handlers are gone (finding F10b)
 			op, ok = Op{Kind: "remove", Svc: i}, true
-			sm.patterns = map[string]bool{}
+			sm.svcPats = map[string]bool{}
+			sm.plainPats = map[string]bool{}
 			for _, p := range PatsFrom(rest) {
-				sm.patterns[p] = true
+				sm.svcPats[p] = true
 			}
 			sm.onRoot = false
 			for _, x := range rest {
@@ -245,7 +265,7 @@ func GenHistory(r *rng.R, router string, st *Stats) *History {
 			ok = true
 		default: // handle
 			p := r.Pick(handlePool)
-			if sm.patterns[p] {
+			if sm.svcPats[p] || sm.plainPats[p] {
 				if careful {
 					break
 				}
@@ -254,7 +274,7 @@ func GenHistory(r *rng.R, router string, st *Stats) *History {
 			op, ok = Op{Kind: "handle", Pattern: p, HID: hid, WithFilter: r.Chance(1, 3)}, true
 			hid++
 			handled = true
-			sm.patterns[p] = true
+			sm.plainPats[p] = true
 		}
 		if !ok {
 			if r.Chance(1, 20) {
